@@ -153,6 +153,26 @@ func concRun(dir string, seed int64, nG, nOps int, fl bolt.FreelistType) (recs [
 		return recs, first, 0, overlap, "goroutines did not finish within 60 s (deadlock or lost wake-up)"
 	}
 	_ = db.View(func(tx *bolt.Tx) error { final = readN(tx); return nil })
+	// a burst of concurrent read transactions that do nothing: begin and close race on the
+	// transaction counters
+	{
+		var bw sync.WaitGroup
+		for g := 0; g < 8; g++ {
+			bw.Add(1)
+			go func() {
+				defer bw.Done()
+				for i := 0; i < 3000; i++ {
+					_ = db.View(func(tx *bolt.Tx) error { return nil })
+				}
+			}()
+		}
+		bw.Wait()
+	}
+	// every transaction is closed now: the counter of open read transactions, updated by begin and
+	// close from all goroutines, must be back at zero (a lost update is a data race on it)
+	if st := db.Stats(); st.OpenTxN != 0 {
+		hung = fmt.Sprintf("stats-race: all transactions are closed but Stats().OpenTxN = %d (updates to the counter were lost between goroutines)", st.OpenTxN)
+	}
 	return
 }
 
@@ -210,7 +230,11 @@ func concEngine() {
 		}
 		rp := map[string]any{"seed": seed, "goroutines": nG, "freelist": string(fl), "log": lines}
 		if hung != "" {
-			rep.violation("C03", "monitor", "conc-hang", hung, rp)
+			sig := "conc-hang"
+			if strings.HasPrefix(hung, "stats-race") {
+				sig = "conc-stats-race"
+			}
+			rep.violation("C03", "monitor", sig, hung, rp)
 			continue
 		}
 		if overlap {
